@@ -1,7 +1,211 @@
-import RbdlProofs.Lemmas.Rot
-/- C08 — property theorems (being filled in) -/
+import RbdlProofs.Lemmas.Kkt
+import RbdlProofs.Lemmas.KktEx
+/-
+  C08 — constrained forward dynamics (Constraints.cc: `ForwardDynamicsConstraintsDirect`,
+  `…RangeSpaceSparse`, `…NullSpace`).
+
+  Specifying relation:   H qdd + N = tau + Gᵀ lam,   G qdd = gamma        (c := tau - N).
+
+  The dense solves are delegated to Eigen (checked at run time in certificate mode); the theorems
+  below say what every solution of the systems that the three methods set up has.
+
+  Scalars: the statements hold over any commutative ring `K` (with a partial order where positive
+  definiteness is used), in particular over every linearly ordered field
+  (`[Field K] [LinearOrder K] [IsStrictOrderedRing K]`) and over `ℚ`, `ℝ`.  Index types are arbitrary
+  finite types (`Fin n`, `Fin m`, `Fin (n - m)` are instances).
+-/
 namespace Rbdl.C08
-open Lean.Grind Rbdl
-variable {α : Type} [CommRing α]
-theorem placeholder_rot_one : (M3.one : M3 α).IsRot := M3.isRot_one
+open Matrix Rbdl.Kkt
+
+variable {K : Type*} {m n z : Type*} [Fintype m] [Fintype n] [Fintype z]
+
+/-- **kkt_unique** ("all methods agree").  `H` positive definite, `Gᵀ` injective (full row rank)
+⇒ the relation has at most one solution `(qdd, lam)`.
+Symmetry of `H` is *not* needed (so the theorem is stated without it; a symmetric positive
+definite `H` is a special case). -/
+theorem kkt_unique [CommRing K] [PartialOrder K] (H : Matrix n n K) (G : Matrix m n K)
+    (hpd : ∀ x : n → K, x ≠ 0 → 0 < x ⬝ᵥ H *ᵥ x)
+    (hG : ∀ y : m → K, Gᵀ *ᵥ y = 0 → y = 0)
+    (N tau : n → K) (gamma : m → K) (qdd qdd' : n → K) (lam lam' : m → K)
+    (h1 : H *ᵥ qdd + N = tau + Gᵀ *ᵥ lam) (h2 : G *ᵥ qdd = gamma)
+    (h1' : H *ᵥ qdd' + N = tau + Gᵀ *ᵥ lam') (h2' : G *ᵥ qdd' = gamma) :
+    qdd = qdd' ∧ lam = lam' :=
+  kkt_unique_of_definite H G (definite_of_pos hpd) hG (c := tau - N)
+    (by rw [eq_sub_of_add_eq h1]; abel) h2 (by rw [eq_sub_of_add_eq h1']; abel) h2'
+
+example : Ex.qdd = Ex.qdd ∧ Ex.lam = Ex.lam :=
+  kkt_unique Ex.H Ex.G Ex.H_pd Ex.G_inj Ex.N Ex.tau Ex.gamma Ex.qdd Ex.qdd Ex.lam Ex.lam
+    Ex.sol1 Ex.sol2 Ex.sol1 Ex.sol2
+
+/-- `kkt_unique` literally in the requested form: linearly ordered field, `Fin` indices, `H`
+symmetric positive definite (the symmetry hypothesis is accepted and not used). -/
+theorem kkt_unique_spd {F : Type*} [Field F] [LinearOrder F] [IsStrictOrderedRing F] {n m : ℕ}
+    (H : Matrix (Fin n) (Fin n) F) (G : Matrix (Fin m) (Fin n) F)
+    (_hH : H.IsSymm) (hpd : ∀ x : Fin n → F, x ≠ 0 → 0 < x ⬝ᵥ H *ᵥ x)
+    (hG : ∀ y : Fin m → F, Gᵀ *ᵥ y = 0 → y = 0)
+    (N tau : Fin n → F) (gamma : Fin m → F) (qdd qdd' : Fin n → F) (lam lam' : Fin m → F)
+    (h1 : H *ᵥ qdd + N = tau + Gᵀ *ᵥ lam) (h2 : G *ᵥ qdd = gamma)
+    (h1' : H *ᵥ qdd' + N = tau + Gᵀ *ᵥ lam') (h2' : G *ᵥ qdd' = gamma) :
+    qdd = qdd' ∧ lam = lam' :=
+  kkt_unique H G hpd hG N tau gamma qdd qdd' lam lam' h1 h2 h1' h2'
+
+example : Ex.qdd = Ex.qdd ∧ Ex.lam = Ex.lam :=
+  kkt_unique_spd Ex.H Ex.G Ex.H_symm Ex.H_pd Ex.G_inj Ex.N Ex.tau Ex.gamma Ex.qdd Ex.qdd Ex.lam
+    Ex.lam Ex.sol1 Ex.sol2 Ex.sol1 Ex.sol2
+
+/-- **range_space_sound** — algebra of `SolveConstrainedSystemRangeSpaceSparse`.
+Only `H * Hinv = 1` is used (for square matrices it is equivalent to a two-sided inverse). -/
+theorem range_space_sound [CommRing K] [DecidableEq n] (H Hinv : Matrix n n K) (G : Matrix m n K)
+    (hHinv : H * Hinv = 1) (c : n → K) (gamma lam : m → K) (Kmat : Matrix m m K) (a : m → K)
+    (qdd : n → K)
+    (hK : Kmat = G * Hinv * Gᵀ) (ha : a = gamma - G *ᵥ (Hinv *ᵥ c))
+    (hlam : Kmat *ᵥ lam = a) (hqdd : qdd = Hinv *ᵥ (c + Gᵀ *ᵥ lam)) :
+    H *ᵥ qdd = c + Gᵀ *ᵥ lam ∧ G *ᵥ qdd = gamma := by
+  subst hK ha hqdd
+  exact range_space H Hinv G hHinv c gamma lam hlam
+
+example : Ex.H *ᵥ Ex.qdd = Ex.c + Ex.Gᵀ *ᵥ Ex.lam ∧ Ex.G *ᵥ Ex.qdd = Ex.gamma :=
+  range_space_sound Ex.H Ex.Hinv Ex.G Ex.H_Hinv Ex.c Ex.gamma Ex.lam _ _ Ex.qdd rfl rfl
+    Ex.range_lam Ex.range_qdd
+
+/-- The same with the quantities of the code: `H = Lᵀ L` (`SparseFactorizeLTL`), `Li = L⁻¹`,
+`Y = L⁻ᵀ Gᵀ`, `z = L⁻ᵀ c` (`SparseSolveLTx`), `K = Yᵀ Y`, `a = gamma - Yᵀ z`,
+`qdd = L⁻¹ L⁻ᵀ (c + Gᵀ lam)` (`SparseSolveLTx` then `SparseSolveLx`). -/
+theorem range_space_ltl_sound [CommRing K] [DecidableEq n] (L Li : Matrix n n K)
+    (G : Matrix m n K) (hL1 : L * Li = 1) (hL2 : Li * L = 1)
+    (c : n → K) (gamma lam : m → K) (Y : Matrix n m K) (zz : n → K) (Kmat : Matrix m m K)
+    (a : m → K) (qdd : n → K)
+    (hY : Y = Liᵀ * Gᵀ) (hz : zz = Liᵀ *ᵥ c) (hK : Kmat = Yᵀ * Y) (ha : a = gamma - Yᵀ *ᵥ zz)
+    (hlam : Kmat *ᵥ lam = a) (hqdd : qdd = Li *ᵥ (Liᵀ *ᵥ (c + Gᵀ *ᵥ lam))) :
+    (Lᵀ * L) *ᵥ qdd = c + Gᵀ *ᵥ lam ∧ G *ᵥ qdd = gamma := by
+  subst hY hz hK ha hqdd
+  rw [mulVec_mulVec (c + Gᵀ *ᵥ lam) Li Liᵀ]
+  refine range_space (Lᵀ * L) (Li * Liᵀ) G (ltl_inverse L Li hL1 hL2) c gamma lam ?_
+  have e1 : (Liᵀ * Gᵀ)ᵀ = G * Li := by
+    rw [transpose_mul, transpose_transpose, transpose_transpose]
+  rw [e1] at hlam
+  rw [← mulVec_mulVec c Li Liᵀ, mulVec_mulVec (Liᵀ *ᵥ c) G Li, ← hlam]
+  simp only [Matrix.mul_assoc]
+
+example : (Ex.Lᵀ * Ex.L) *ᵥ (Ex.Li *ᵥ (Ex.Liᵀ *ᵥ (Ex.c + Ex.Gᵀ *ᵥ Ex.lamL))) =
+      Ex.c + Ex.Gᵀ *ᵥ Ex.lamL ∧
+    Ex.G *ᵥ (Ex.Li *ᵥ (Ex.Liᵀ *ᵥ (Ex.c + Ex.Gᵀ *ᵥ Ex.lamL))) = Ex.gamma :=
+  range_space_ltl_sound Ex.L Ex.Li Ex.G Ex.L_Li Ex.Li_L Ex.c Ex.gamma Ex.lamL _ _ _ _ _
+    rfl rfl rfl rfl Ex.ltl_lam rfl
+
+/-- **null_space_sound** — algebra of `SolveConstrainedSystemNullSpace` (with the transpose in
+the multiplier solve, i.e. the corrected code). `Z` may have any finite column index type. -/
+theorem null_space_sound [CommRing K] (H : Matrix n n K) (G : Matrix m n K) (Y : Matrix n m K)
+    (Z : Matrix n z K) (c : n → K) (gamma : m → K) (qy : m → K) (qz : z → K) (lam : m → K)
+    (qdd : n → K)
+    (hGZ : G * Z = 0)
+    (hYZ : ∀ r : n → K, Yᵀ *ᵥ r = 0 → Zᵀ *ᵥ r = 0 → r = 0)
+    (hy : (G * Y) *ᵥ qy = gamma)
+    (hz : (Zᵀ * H * Z) *ᵥ qz = Zᵀ *ᵥ (c - H *ᵥ (Y *ᵥ qy)))
+    (hqdd : qdd = Y *ᵥ qy + Z *ᵥ qz)
+    (hl : (G * Y)ᵀ *ᵥ lam = Yᵀ *ᵥ (H *ᵥ qdd - c)) :
+    H *ᵥ qdd = c + Gᵀ *ᵥ lam ∧ G *ᵥ qdd = gamma := by
+  subst hqdd
+  exact null_space H G Y Z c gamma qy qz lam hGZ hYZ hy hz hl
+
+example : Ex.H *ᵥ Ex.qdd = Ex.c + Ex.Gᵀ *ᵥ Ex.lam ∧ Ex.G *ᵥ Ex.qdd = Ex.gamma :=
+  null_space_sound Ex.H Ex.G Ex.Y Ex.Z Ex.c Ex.gamma Ex.qy Ex.qz Ex.lam Ex.qdd Ex.GZ Ex.YZ_inj
+    Ex.ns_qy Ex.ns_qz Ex.ns_qdd Ex.ns_lam
+
+/-- The defect that was fixed in `SolveConstrainedSystemNullSpace`: if the multiplier is obtained
+from `(G Y) lam = Yᵀ (H qdd − c)` (no transpose) all other hypotheses of `null_space_sound` can
+hold — even with `H` symmetric positive definite and `[Y Z]` the identity — while the conclusion
+fails.  3 degrees of freedom, 2 constraints, over ℚ. -/
+theorem null_space_defect_counterexample :
+    ∃ (H : Matrix (Fin 3) (Fin 3) ℚ) (G : Matrix (Fin 2) (Fin 3) ℚ)
+      (Y : Matrix (Fin 3) (Fin 2) ℚ) (Z : Matrix (Fin 3) (Fin 1) ℚ) (c : Fin 3 → ℚ)
+      (gamma qy : Fin 2 → ℚ) (qz : Fin 1 → ℚ) (lam : Fin 2 → ℚ) (qdd : Fin 3 → ℚ),
+      H.IsSymm ∧ (∀ x : Fin 3 → ℚ, x ≠ 0 → 0 < x ⬝ᵥ H *ᵥ x) ∧
+      (∀ y : Fin 2 → ℚ, Gᵀ *ᵥ y = 0 → y = 0) ∧
+      G * Z = 0 ∧ (∀ r : Fin 3 → ℚ, Yᵀ *ᵥ r = 0 → Zᵀ *ᵥ r = 0 → r = 0) ∧
+      (G * Y) *ᵥ qy = gamma ∧
+      (Zᵀ * H * Z) *ᵥ qz = Zᵀ *ᵥ (c - H *ᵥ (Y *ᵥ qy)) ∧
+      qdd = Y *ᵥ qy + Z *ᵥ qz ∧
+      (G * Y) *ᵥ lam = Yᵀ *ᵥ (H *ᵥ qdd - c) ∧
+      ¬ (H *ᵥ qdd = c + Gᵀ *ᵥ lam ∧ G *ᵥ qdd = gamma) :=
+  ⟨Ex.H, Ex.G, Ex.Y, Ex.Z, Ex.c, Ex.gamma, Ex.qy, Ex.qz, Ex.lamBad, Ex.qdd, Ex.H_symm, Ex.H_pd,
+    Ex.G_inj, Ex.GZ, Ex.YZ_inj, Ex.ns_qy, Ex.ns_qz, Ex.ns_qdd, Ex.ns_lamBad,
+    fun h => Ex.bad_fails h.1⟩
+
+/-- **direct_sign** — `SolveConstrainedSystemDirect` solves `[[H, Gᵀ],[G, 0]] (qdd, x) = (c, gamma)`
+and `ForwardDynamicsConstraintsDirect` reports `lam = -x`: this is exactly the relation
+(an equivalence, stated with `c = tau - N` unfolded). -/
+theorem direct_sign [CommRing K] (H : Matrix n n K) (G : Matrix m n K) (N tau qdd : n → K)
+    (gamma x lam : m → K) (hlam : lam = -x) :
+    fromBlocks H Gᵀ G 0 *ᵥ Sum.elim qdd x = Sum.elim (tau - N) gamma ↔
+      H *ᵥ qdd + N = tau + Gᵀ *ᵥ lam ∧ G *ᵥ qdd = gamma := by
+  subst hlam
+  rw [direct_block]
+  constructor
+  · rintro ⟨h1, h2⟩; exact ⟨by rw [h1]; abel, h2⟩
+  · rintro ⟨h1, h2⟩; exact ⟨by rw [eq_sub_of_add_eq h1]; abel, h2⟩
+
+example : fromBlocks Ex.H Ex.Gᵀ Ex.G 0 *ᵥ Sum.elim Ex.qdd (-Ex.lam) =
+    Sum.elim (Ex.tau - Ex.N) Ex.gamma :=
+  (direct_sign Ex.H Ex.G Ex.N Ex.tau Ex.qdd Ex.gamma (-Ex.lam) Ex.lam (neg_neg _).symm).mpr
+    ⟨Ex.sol1, Ex.sol2⟩
+
+/-- **all methods agree**: for positive definite `H` and full-row-rank `G` the outputs of the
+direct, the range-space and the null-space method coincide. -/
+theorem methods_agree [CommRing K] [PartialOrder K] [DecidableEq n]
+    (H Hinv : Matrix n n K) (G : Matrix m n K)
+    (hpd : ∀ x : n → K, x ≠ 0 → 0 < x ⬝ᵥ H *ᵥ x)
+    (hG : ∀ y : m → K, Gᵀ *ᵥ y = 0 → y = 0)
+    (c : n → K) (gamma : m → K)
+    -- direct
+    (qddD : n → K) (x : m → K)
+    (hD : fromBlocks H Gᵀ G 0 *ᵥ Sum.elim qddD x = Sum.elim c gamma)
+    -- range space
+    (hHinv : H * Hinv = 1) (lamR : m → K)
+    (hR : (G * Hinv * Gᵀ) *ᵥ lamR = gamma - G *ᵥ (Hinv *ᵥ c))
+    -- null space
+    (Y : Matrix n m K) (Z : Matrix n z K) (qy : m → K) (qz : z → K) (lamN : m → K)
+    (hGZ : G * Z = 0)
+    (hYZ : ∀ r : n → K, Yᵀ *ᵥ r = 0 → Zᵀ *ᵥ r = 0 → r = 0)
+    (hy : (G * Y) *ᵥ qy = gamma)
+    (hz : (Zᵀ * H * Z) *ᵥ qz = Zᵀ *ᵥ (c - H *ᵥ (Y *ᵥ qy)))
+    (hl : (G * Y)ᵀ *ᵥ lamN = Yᵀ *ᵥ (H *ᵥ (Y *ᵥ qy + Z *ᵥ qz) - c)) :
+    (qddD = Hinv *ᵥ (c + Gᵀ *ᵥ lamR) ∧ -x = lamR) ∧
+      (qddD = Y *ᵥ qy + Z *ᵥ qz ∧ -x = lamN) := by
+  have hd := (direct_block H G c qddD gamma x).mp hD
+  have hr := range_space H Hinv G hHinv c gamma lamR hR
+  have hn := null_space H G Y Z c gamma qy qz lamN hGZ hYZ hy hz hl
+  have hdef := definite_of_pos hpd
+  exact ⟨kkt_unique_of_definite H G hdef hG hd.1 hd.2 hr.1 hr.2,
+    kkt_unique_of_definite H G hdef hG hd.1 hd.2 hn.1 hn.2⟩
+
+example : (Ex.qdd = Ex.Hinv *ᵥ (Ex.c + Ex.Gᵀ *ᵥ Ex.lam) ∧ - -Ex.lam = Ex.lam) ∧
+    (Ex.qdd = Ex.Y *ᵥ Ex.qy + Ex.Z *ᵥ Ex.qz ∧ - -Ex.lam = Ex.lam) :=
+  methods_agree Ex.H Ex.Hinv Ex.G Ex.H_pd Ex.G_inj Ex.c Ex.gamma Ex.qdd (-Ex.lam)
+    ((direct_block Ex.H Ex.G Ex.c Ex.qdd Ex.gamma (-Ex.lam)).mpr
+      ⟨by rw [neg_neg]; exact Ex.sol1c, Ex.sol2⟩)
+    Ex.H_Hinv Ex.lam Ex.range_lam Ex.Y Ex.Z Ex.qy Ex.qz Ex.lam Ex.GZ Ex.YZ_inj Ex.ns_qy Ex.ns_qz
+    (by rw [← Ex.ns_qdd]; exact Ex.ns_lam)
+
+/-- The Schur complement `G H⁻¹ Gᵀ` and the reduced matrix `Zᵀ H Z` handed to `llt()` are positive
+definite (so the Cholesky solves of the range-space and null-space methods are legitimate). -/
+theorem schur_posdef [CommRing K] [PartialOrder K] [DecidableEq n] (H Hinv : Matrix n n K)
+    (G : Matrix m n K) (hHinv : H * Hinv = 1)
+    (hpd : ∀ x : n → K, x ≠ 0 → 0 < x ⬝ᵥ H *ᵥ x)
+    (hG : ∀ y : m → K, Gᵀ *ᵥ y = 0 → y = 0) :
+    ∀ y : m → K, y ≠ 0 → 0 < y ⬝ᵥ (G * Hinv * Gᵀ) *ᵥ y :=
+  schur_pos G hHinv hpd hG
+
+theorem reduced_posdef [CommRing K] [PartialOrder K] (H : Matrix n n K) (Z : Matrix n z K)
+    (hpd : ∀ x : n → K, x ≠ 0 → 0 < x ⬝ᵥ H *ᵥ x)
+    (hZ : ∀ w : z → K, Z *ᵥ w = 0 → w = 0) :
+    ∀ w : z → K, w ≠ 0 → 0 < w ⬝ᵥ (Zᵀ * H * Z) *ᵥ w :=
+  reduced_pos Z hpd hZ
+
+example : ∀ y : Fin 2 → ℚ, y ≠ 0 → 0 < y ⬝ᵥ (Ex.G * Ex.Hinv * Ex.Gᵀ) *ᵥ y :=
+  schur_posdef Ex.H Ex.Hinv Ex.G Ex.H_Hinv Ex.H_pd Ex.G_inj
+
+example : ∀ w : Fin 1 → ℚ, w ≠ 0 → 0 < w ⬝ᵥ (Ex.Zᵀ * Ex.H * Ex.Z) *ᵥ w :=
+  reduced_posdef Ex.H Ex.Z Ex.H_pd Ex.Z_inj
+
 end Rbdl.C08
